@@ -15,10 +15,11 @@ EXTENDS ScnLib
 CONSTANTS Tier, Seed, Mod, TickMs
 Q == Tier = "quick"
 
+\* (no two series ever have the same value at a tick: topk results must not depend on a tie-break)
 Data == << Series(<< <<"__name__","m">>, <<"a","x">>, <<"b","1">> >>, [i \in 1..40 |-> Smp(i - 1, "f", i)]),
            Series(<< <<"__name__","m">>, <<"a","x">>, <<"b","2">> >>, [i \in 1..40 |-> Smp(i - 1, IF i = 9 THEN "s" ELSE "f", 20 + i)]),
-           Series(<< <<"__name__","m">>, <<"a","y">>, <<"b","1">> >>, [i \in 1..20 |-> Smp(2 * i - 1, "f", 50 - i)]),
-           Series(<< <<"__name__","m">>, <<"Z","up">>, <<"a","y">>, <<"b","2">> >>, [i \in 1..40 |-> Smp(i - 1, "f", 3)]),
+           Series(<< <<"__name__","m">>, <<"a","y">>, <<"b","1">> >>, [i \in 1..20 |-> Smp(2 * i - 1, "f", 150 - i)]),
+           Series(<< <<"__name__","m">>, <<"Z","up">>, <<"a","y">>, <<"b","2">> >>, [i \in 1..40 |-> Smp(i - 1, "f", 1000)]),
            Series(<< <<"__name__","n">>, <<"a","x">> >>, [i \in 1..40 |-> Smp(i - 1, "f", 2)]),
            Series(<< <<"__name__","n">>, <<"a","y">> >>, [i \in 1..6 |-> Smp(i - 1, "f", 4)]),
            Series(<< <<"__name__","p">> >>, [i \in 1..40 |-> Smp(i - 1, "f", (i % 2) + 1)]) >>
